@@ -142,3 +142,37 @@ def corpus_texts():
     for f in sorted(glob.glob(os.path.join(REPO, "testdata", "good", "*.feature")) + glob.glob(os.path.join(REPO, "testdata", "bad", "*.feature"))):
         out.append((os.path.basename(f), open(f, encoding="utf8", newline="").read()))
     return out
+
+
+# ------------------------------------------------------------------ deterministic "magnitude" families
+def big_documents(thorough=False):
+    """documents whose counts, line numbers, columns and ids cross digit boundaries (9/10, 99/100, 999/1000) - things a
+    random structural generator rarely reaches.  -> [(name, text)] (valid and invalid ones)"""
+    out = []
+    N = [9, 10, 11, 12, 99, 100, 101] + ([999, 1000, 1001] if thorough else [])
+
+    def scen(i, steps=1, ind="  "):
+        return ind + "Scenario: s%d\n" % i + "".join(ind + "  Given step %d of %d\n" % (j, i) for j in range(steps))
+    for n in N:
+        out.append(("scenarios-%d" % n, "Feature: f\n" + "".join(scen(i) for i in range(n))))
+        out.append(("steps-%d" % n, "Feature: f\n" + scen(0, n)))
+        out.append(("table-rows-%d" % n, "Feature: f\n Scenario: s\n  Given t\n" + "".join("   | r%d | x |\n" % i for i in range(n))))
+        out.append(("table-cells-%d" % n, "Feature: f\n Scenario: s\n  Given t\n   |" + "".join(" c%d |" % i for i in range(n)) + "\n   |" + " v |" * n + "\n"))
+        out.append(("example-rows-%d" % n, "Feature: f\n Background:\n  Given b\n Scenario Outline: o <a>\n  Given <a>\n  Examples:\n   | a |\n" + "".join("   | %d |\n" % i for i in range(n))))
+        out.append(("examples-blocks-%d" % n, "Feature: f\n Scenario Outline: o\n  Given <a>\n" + "".join(" @e%d\n Examples: e%d\n   | a |\n   | %d |\n" % (i, i, i) for i in range(n))))
+        out.append(("tags-on-a-line-%d" % n, " ".join("@t%d" % i for i in range(n)) + "\nFeature: f\n " + " ".join("@u%d" % i for i in range(n)) + "\n Scenario: s\n"))
+        out.append(("tag-lines-%d" % n, "".join("@t%d\n" % i for i in range(n)) + "Feature: f\n" + "".join(" @u%d\n # c\n" % i for i in range(n)) + " Scenario: s\n"))
+        out.append(("rules-%d" % n, "Feature: f\n" + "".join(" @r%d\n Rule: r%d\n  Background:\n   Given b%d\n" % (i, i, i) + scen(i, 1, "  ") for i in range(n))))
+        out.append(("prelude-lines-%d" % n, "\n" * (n // 2) + "# c\n" * (n - n // 2) + "Feature: f\n Scenario: s\n  Given x\n   | a |\n  And y\n   \"\"\"\n   d\n   \"\"\"\n @t\n Scenario: u\n"))
+        out.append(("indent-%d" % n, "".join(" " * n + l + "\n" for l in ["@t @u", "Feature: f", "desc", "Scenario Outline: s", "Given <a> x", "| a | b |", "\"\"\"m", "c", "\"\"\"", "@e   @f", "Examples:", "| a |", "| 1 |"])))
+        out.append(("comments-%d" % n, "Feature: f\n" + "".join(" # comment %d\n Scenario: s%d\n" % (i, i) for i in range(n))))
+        out.append(("docstring-lines-%d" % n, "Feature: f\n Scenario: s\n  Given d\n   ```\n" + "".join("   line %d\n" % i for i in range(n)) + "   ```\n"))
+        out.append(("description-lines-%d" % n, "Feature: f\n" + "".join("  description %d\n\n" % i for i in range(n)) + " Scenario: s\n"))
+        # invalid ones: the fault sits behind the magnitude
+        out.append(("bad-after-prelude-%d" % n, "\n" * n + "Feature: f\n garbage %d\n Scenario: s\n  Given x\n   | a | b |\n   | c |\n" % n))
+        out.append(("bad-ragged-row-%d" % n, "Feature: f\n Scenario: s\n  Given t\n" + "".join("   | r%d | x |\n" % i for i in range(n)) + "   | short |\n   | r | x |\n"))
+        out.append(("bad-tag-blank-col-%d" % n, "Feature: f\n" + " " * n + "@ok @bad tag\n Scenario: s\n"))
+        out.append(("bad-unexpected-indent-%d" % n, "Feature: f\n Scenario: s\n  Given x\n" + " " * n + "Examples:\n" + " " * n + "| a |\n" + "\t" * n + "nonsense\n"))
+        out.append(("bad-many-errors-%d" % n, "Feature: f\n" + "".join(" Scenario: s%d\n  Given x\n  bad line %d\n" % (i, i) for i in range(n))))
+        out.append(("bad-eof-in-docstring-%d" % n, "Feature: f\n Scenario: s\n  Given d\n   \"\"\"\n" + "x\n" * n))
+    return out
